@@ -7,6 +7,7 @@ use pc_keyboard::*;
 mod generated;
 use generated::*;
 mod cellcheck;
+mod sweep;
 include!("xgen.rs");
 include!("xspec.rs");
 
@@ -242,6 +243,9 @@ fn main() {
                     println!("RESULT PANIC: {}", msg)
                 }
             }
+        }
+        "sweep" => {
+            println!("{}", sweep::run(&args[2..]));
         }
         "cellcheck" => {
             println!("{}", cellcheck::run(&args[2..]));
